@@ -7,7 +7,16 @@ from units import round_common as R
 def build(S: Sources) -> Unit:
     errs = []
     vfiles = guarded(lambda: count_input_files(S), errs, [])
-    return Unit(property_id="C01", verus=vfiles, kani=R.round_kani(S, errs, "C01"), build_errors=errs,
+    kani = R.round_kani(S, errs, "C01")
+    shim = guarded(lambda: count_shim(S), errs, None)
+    if shim is not None:
+        ks = KaniSpec(injections={BENCH: shim},
+                      harnesses=[KaniHarness("verif_count_input::shown_once_to_every_input_counter", "bounded", bound="two generated values; every subset of the four counter kinds fed by an input counter",
+                                             covers="bench_loop_threaded: the statements from `let mut counter_totals` to the end of the closure count_input, run through a shim with a recording counter collection")],
+                      stubs_note=["scratch-copy addition: module verif_count_input holding the text of bench_loop_threaded's record_sample closure from `let mut counter_totals ..;` to the end of the definition of count_input"])
+        ks.tag = "C01"
+        kani = (kani if isinstance(kani, list) else [kani]) + [ks]
+    return Unit(property_id="C01", verus=vfiles, kani=kani, build_errors=errs,
                 undecided_clauses=R.ROUND_UNDECIDED + ["sample_count / number of rounds: see C03"])
 
 
@@ -111,3 +120,69 @@ def count_input_files(S: Sources):
 pub fn canary_count_input<I>(c: &CounterCollection, i: &I, t: &mut [u128; 4], Tracked(log): Tracked<&mut Seq<KnownCounterKind>>) requires old(log).len() == 0 { count_input_body(c, i, t, Tracked(log)); assert(false); }
 """, kind="lemma")]
     return [VerusFile("c01_count_input", secs), VerusFile("c01_count_input_canary", csecs, expect_fail=True)]
+
+
+# --------------------------------------------------------------------------- the same closure as compiled, with recorders (Kani, bounded)
+COUNT_SHIM_HEAD = r"""
+#[cfg(kani)]
+#[allow(static_mut_refs)]
+mod verif_count_input {
+    use super::*;
+    pub static mut ASKED: [u8; 4] = [0; 4];          // how often each kind's input counter was shown a value
+    /// what the closure needs of the counter collection: which kinds are fed by an input counter, and the call that shows it a value
+    struct Counters { has: [bool; 4] }
+    impl Counters {
+        #[allow(dead_code)]
+        fn uses_input_counts(&self, k: KnownCounterKind) -> bool { self.has[k as usize] }
+        unsafe fn get_input_count<I>(&self, k: KnownCounterKind, _input: &I) -> Option<MaxCountUInt> {
+            if self.has[k as usize] { unsafe { ASKED[k as usize] += 1; } Some(10 + k as MaxCountUInt) } else { None }
+        }
+    }
+    struct Cx { counters: Counters }
+    impl Cx {
+        /// (text of bench_loop_threaded's record_sample closure from `let mut counter_totals ..;` to the end of the definition of
+        /// count_input, see units/C01.py count_shim; the closure is then called once per generated input, as the recorder does)
+        fn one_sample<I>(&self, inputs: &[I]) -> [u128; 4] {
+"""
+
+COUNT_SHIM_TAIL = r"""
+            let mut k = 0;
+            while k < inputs.len() { count_input(&inputs[k]); k += 1; }
+            counter_totals
+        }
+    }
+    /// every generated value is shown exactly once to the input counter of EVERY kind that has one, whichever kinds those are
+    #[kani::proof]
+    #[kani::unwind(6)]
+    fn shown_once_to_every_input_counter() {
+        unsafe { ASKED = [0; 4]; }
+        let has: [bool; 4] = kani::any();
+        let cx = Cx { counters: Counters { has } };
+        let inputs = [1u8, 2u8];
+        let totals = cx.one_sample(&inputs[..]);
+        let mut k = 0;
+        while k < 4 {
+            let asked = unsafe { ASKED[k] };
+            assert!(asked == if has[k] { 2 } else { 0 }, "[C01] each value is shown once to every input counter");
+            assert!(totals[k] == if has[k] { 2 * (10 + k as u128) } else { 0 }, "[C01] what each input counter says is added to its own kind's total");
+            k += 1;
+        }
+        kani::cover!(has[0] && has[3]); kani::cover!(!has[0] && !has[1] && !has[2] && !has[3]);
+    }
+}
+"""
+
+
+def count_shim(S: Sources) -> str:
+    import re
+    from lib import rsx
+    b = S(BENCH)
+    f = b.find_fn("bench_loop_threaded", impl=r"impl<'a> BenchContext<'a>")
+    body = f.body_text()
+    ms = re.search(r"let\s+mut\s+counter_totals\s*:", body)
+    mc = re.search(r"let\s+mut\s+count_input\s*=\s*\|\s*input\s*:\s*&\s*I\s*\|\s*\{", body)
+    if not ms or not mc or mc.start() < ms.start():
+        raise rsx.LostAnchor(f"{BENCH}: bench_loop_threaded: `let mut counter_totals` .. `let mut count_input = |input: &I| {{` not found")
+    close = rsx._match(body, mc.end() - 1)
+    end = body.index(";", close) + 1
+    return COUNT_SHIM_HEAD + body[ms.start():end] + COUNT_SHIM_TAIL
